@@ -52,6 +52,17 @@ def parseChain (c : List (String × String × String)) : Option (List (LLKind ×
 /-- the if-chain at the end of `handleLeafList`: (list tested for `len > 0`, list constructed). -/
 def leafListChain : Option (List (LLKind × LLKind)) := parseChain Generated.leafListChainV2
 
+/-- `v.DecimalVal.Precision > maxDecimal64Precision`: the precision is refused (no bound in a
+    source without the constant). -/
+def precisionRefused (p : Nat) : Bool :=
+  match Generated.maxDecimalPrecisionV2 with
+  | some m => decide (p > m)
+  | none => false
+
+/-- what the FloatVal case does with a NaN: an error when the source tests `math.IsNaN`, else
+    the panic of `big.NewFloat(NaN)`. -/
+def nanFailure : Fail := if Generated.floatNaNRefusedV2 then .floatNaN else .panic
+
 /-- `var intWidth / uintWidth / width = configapi.WidthNN`. -/
 def defaultWidth (name : String) : Int := ((Generated.defaultWidthsV2.lookup name).getD 0 : Nat)
 
@@ -216,7 +227,9 @@ def llCollect : LLAcc → List Scalar → Except Fail LLAcc
     | .uint n => llCollect { acc with uints := acc.uints ++ [n] } es
     | .bool b => llCollect { acc with bools := acc.bools ++ [b] } es
     | .bytes b => llCollect { acc with bytess := acc.bytess ++ [b] } es
-    | .dec d p => llCollect { acc with digits := acc.digits ++ [d], precision := p % 256 } es
+    | .dec d p =>
+      if precisionRefused p then .error .decimalPrecision
+      else llCollect { acc with digits := acc.digits ++ [d], precision := p % 256 } es
     | .decNil => .error .panic
     | .float f => llCollect { acc with floats := acc.floats ++ [f] } es
     | .anyNil => .error .llNotSupported
@@ -264,9 +277,9 @@ def toNative (g : GVal) (opts : List Nat) : Except Fail TV :=
   | .scalar (.uint n) => .ok (newUint (n % two64) (widthOf "uintWidth" opts))
   | .scalar (.bool b) => .ok (newBool b)
   | .scalar (.bytes b) => .ok (newBytes b)
-  | .scalar (.dec d p) => .ok (newDecimal d (p % 256))
+  | .scalar (.dec d p) => if precisionRefused p then .error .decimalPrecision else .ok (newDecimal d (p % 256))
   | .scalar .decNil => .error .panic
-  | .scalar (.float f) => if isNaN32 f then .error .panic else .ok (newFloat f)
+  | .scalar (.float f) => if isNaN32 f then .error nanFailure else .ok (newFloat f)
   | .scalar .anyNil => .error .notSupported
   | .scalar .other => .error .notSupported
   | .leaflist es => handleLeafList es (opts.headD 0 % 256)
